@@ -4,8 +4,10 @@
     hold: it checks the holds its records need), ... trigger.
 
     The auth and bank modules are the SDK's: what their InitGenesis leaves behind enters as
-    [fx_pre_markers] (the marker accounts in the account store), [fx_next_acc] (the next account
-    number) and [fx_vo0] (the holders of the scope coins).  No proofs in this file. *)
+    [fx_pre_markers] (MarkerAccounts in the account store: none for a genesis made by
+    app/export.go, which leaves bare BaseAccounts in their place), [fx_other_accnum] (the account
+    number of the account of another type at an address), [fx_next_acc] (the next account number)
+    and [fx_vo0] (the holders of the scope coins).  No proofs in this file. *)
 From Coq Require Import ZArith NArith List Bool.
 From PV Require Export Genesis.RoundTrip Genesis.Indexed Genesis.ExchangeGenesis Genesis.MarkerGenesis
                        Genesis.MetadataGenesis.
@@ -15,7 +17,7 @@ Open Scope Z_scope.
 Record full_ext := {
   fx_base : ext;
   fx_marker_valid : marker -> bool; fx_nav_valid : mnav -> bool;
-  fx_pre_markers : table marker; fx_next_acc : N;
+  fx_pre_markers : table marker; fx_other_accnum : key -> option N; fx_next_acc : N;
   fx_rec_addr : key -> key -> option key; fx_blocked : key -> bool;
   fx_vo_send_ok : key -> key -> key -> bool; fx_snav_valid : snav -> bool;
   fx_vo0 : table key }.
@@ -42,7 +44,7 @@ Definition full_export (x : full_ext) (s : full_state) : option full_genesis :=
 Definition full_import (x : full_ext) (g : full_genesis) : option full_state :=
   let b := fx_base x in
   let gb := fg_base g in
-  match marker_import (fx_marker_valid x) (fx_nav_valid x) (fx_pre_markers x) (fx_next_acc x) (fg_marker g) with None => None | Some mk =>
+  match marker_import (fx_marker_valid x) (fx_nav_valid x) (fx_pre_markers x) (fx_other_accnum x) (fx_next_acc x) (fg_marker g) with None => None | Some mk =>
   match quar_import (x_rec_id b) (x_holder b) (g_quar gb) with None => None | Some q =>
   match sanc_import (x_unsanctionable b) (g_sanc gb) with None => None | Some sa =>
   match name_import (x_name_key b) (x_name_norm b) (x_addr_valid b) (g_name gb) with None => None | Some n0 =>
@@ -62,5 +64,8 @@ Definition full_wf (x : full_ext) (s : full_state) : Prop :=
   marker_wf (fx_marker_valid x) (fx_nav_valid x) (f_marker s) /\
   md_wf (fx_rec_addr x) (fx_blocked x) (fx_snav_valid x) (f_md s) /\
   exch_wf (held_of (a_hold (f_base s))) (f_exch s) /\
-  (* the SDK's auth and bank modules have put the marker accounts and the scope coins back *)
-  fx_pre_markers x = mks_accounts (f_marker s) /\ fx_vo0 x = md_vo (f_md s).
+  (* the SDK's auth and bank modules have put the accounts and the scope coins back: the marker
+     accounts travel through the auth genesis as BaseAccounts with their account numbers *)
+  fx_pre_markers x = [] /\
+  (forall k m, In (k, m) (mks_accounts (f_marker s)) -> fx_other_accnum x (mr_addr m) = Some (mr_accnum m)) /\
+  fx_vo0 x = md_vo (f_md s).
